@@ -351,10 +351,11 @@ func (d *Decoder) scan(data []byte, atEOF bool) (advance int, token []byte, err 
 
 	// Look for new blocks
 	switch l := startsBlockQuote(data); {
-	case l > 0 && l == len(data) && !atEOF:
+	case l > 0 && !atEOF && (l == len(data) || !utf8.FullRune(data[l:])):
 		// The block quote start token includes the whitespace after the ">", and
-		// more of it may follow in the next read: request more data so that the
-		// tokens do not depend on how the input is split across reads.
+		// more of it may follow in the next read (possibly the rest of a
+		// multi-byte space that was split): request more data so that the tokens
+		// do not depend on how the input is split across reads.
 		return 0, nil, nil
 	case l > 0 && !d.quoteStarted:
 		// If we haven't yet consumed our block quote start token, do so.
